@@ -143,6 +143,13 @@ def generate(ck):
             off = float(rng.choice([1e-2, 2e-2, 0.1, -1e-2, -0.05, 1.0]))
             s[j, int(rng.integers(0, 3))] += off
             descs.append({"kind": "reject-sum", "params": p, "sats": s.tolist(), "off": off})
+            # a record with one field outside [0, 1] while the others alone already sum to one
+            a = float(rng.uniform(0.05, 0.95))
+            b = float(rng.choice([0.05, 0.3, 1.0]))
+            special = [[a, 1 - a, -b], [1 + b, 0.0, 0.0], [0.0, 1.0, -b], [-b, a, 1 - a]][int(rng.integers(0, 4))]
+            s2 = _simplex(rng, 3)
+            s2[int(rng.integers(0, 3))] = special
+            descs.append({"kind": "reject-sum", "params": p, "sats": s2.tolist(), "off": float(sum(special) - 1)})
         else:
             swc = p[4]
             frac = float(rng.choice([1.0, 0.5, 0.0, float(rng.random())]))
